@@ -3,6 +3,8 @@
 package extendeddaemonset
 
 import (
+	"github.com/DataDog/extendeddaemonset/pkg/controller/utils/comparison"
+	apiequality "k8s.io/apimachinery/pkg/api/equality"
 	"time"
 
 	metav1 "k8s.io/apimachinery/pkg/apis/meta/v1"
@@ -20,8 +22,16 @@ func zzFailedCanaryStore() (*fakeapi.Client, *datadoghqv1alpha1.ExtendedDaemonSe
 	// canary age versus duration: elapsed or not
 	createdB := nondet.TimeSec("rsB.created", -3600, 0)
 	failedAt := nondet.TimeSec("failedAt", -3600, 0)
-	rsA := zzRS(ds, "A", "foo-a", nondet.Base().Add(-24*time.Hour))
-	rsB := zzRS(ds, "B", "foo-b", createdB)
+	// the two templates may differ in more than the pod spec: annotations (a config checksum, say),
+	// an extra label — the rollback restores the whole template of the active replica set
+	tplA := zzTemplate("A")
+	if nondet.Bool("templatesDifferInMetadata") {
+		tplA.Annotations = map[string]string{"checksum/config": "a"}
+		ds.Spec.Template.Annotations = map[string]string{"checksum/config": "b", "canary-only": "x"}
+		ds.Spec.Template.Labels["track"] = "next"
+	}
+	rsA := zzRSOf(ds, tplA, "foo-a", nondet.Base().Add(-24*time.Hour))
+	rsB := zzRSOf(ds, ds.Spec.Template, "foo-b", createdB)
 	zzSetCond(rsB, datadoghqv1alpha1.ConditionTypeCanaryFailed, true, failedAt)
 	if nondet.Bool("rsB.pausedCond") {
 		zzSetCond(rsB, datadoghqv1alpha1.ConditionTypeCanaryPaused, true, failedAt)
@@ -77,6 +87,15 @@ func ZZ_C07_rollbackWrites() {
 		nondet.Assert("C07.rollback.template-restored", zzImage(&w.Spec.Template) == "agent:A")
 	}
 	st := zzStoredEDS(c, "ns", "foo")
+	for _, rs := range c.ERS {
+		if rs.Name == "foo-a" {
+			// "restores spec.template to the active replica set's template": all of it, so that the
+			// restored template hashes to the active replica set again
+			nondet.Assert("C07.rollback.whole-template-restored", apiequality.Semantic.DeepEqual(&st.Spec.Template, &rs.Spec.Template))
+			h, _ := comparison.GenerateMD5PodTemplateSpec(&st.Spec.Template)
+			nondet.Assert("C07.rollback.hash-of-active", h == rs.Spec.TemplateGeneration)
+		}
+	}
 	nondet.Assert("C07.rollback.store", st.Status.Canary == nil && st.Status.ActiveReplicaSet == "foo-a" && zzImage(&st.Spec.Template) == "agent:A")
 	// the failed replica set is not deleted by the reconcile that rolls back
 	nondet.Assert("C07.rollback.failed-rs-kept", c.Count("delete", "ExtendedDaemonSetReplicaSet") == 0)
